@@ -112,6 +112,23 @@ n-th unpacked value in; for TESTANY / WAITANY, member kind by member kind.  Two 
 packed in one order and unpacked in the other make `schemas_agree_partial` hold and this theorem fail. -/
 theorem roles_agree : ∀ e ∈ appTable, ¬ e.observer ∈ excluded → rolesAgree e = true := by decide
 
+/-- **End to end with roles**: as `supported_transition_decodes`, and moreover the member in which the checker stores
+the n-th decoded value has the role of the n-th expression the application packed (for TESTANY / WAITANY: member kind
+by member kind).  `supported_transition_decodes` + `roles_agree`. -/
+theorem supported_transition_decodes_in_role (e : Entry) (he : e ∈ appTable) (hx : ¬ e.observer ∈ excluded)
+    (vs : List FVal) (bs : List Nat) (h : encode e.app vs = some bs) :
+    ∃ c cr, checkerSchema e.kind = some c ∧ checkerRoles e.kind = some cr ∧ decode c bs = some (vs, []) ∧
+      rolesShape c cr = true ∧ rolesShape e.app e.roles = true ∧ rolesCompatible e.roles cr = true := by
+  obtain ⟨c, hc, _, hd⟩ := supported_transition_decodes e he hx vs bs h
+  have hr := roles_agree e he hx
+  unfold rolesAgree at hr
+  rw [hc] at hr
+  cases hcr : checkerRoles e.kind with
+  | none => simp [hcr] at hr
+  | some cr =>
+    simp only [hcr, Bool.and_eq_true] at hr
+    exact ⟨c, cr, hc, rfl, hd, hr.1.2, hr.1.1, hr.2⟩
+
 /-- sanity of the definition on the witness shape of the class: CONDVAR_WAIT packed as (mutex, cond, granted, timeout)
 has the right types and the wrong roles -/
 theorem roles_swapped_rejected :
